@@ -46,7 +46,15 @@ def gen_actor(rng, max_iters=120, dims=(1, 2, 3, 4, 5), families=None, shipped_p
         lower = upper = None
     else:
         N = gen_dim(rng, dims)
-        lower, upper = objectives.gen_box(rng, N)
+        btype = "float_array"
+        if rng.random() < 0.12:
+            # bounds presented the way a user (and the shipped GKLS) may write them: python ints / int arrays / lists
+            lower, upper = objectives.gen_int_box(rng, N)
+            btype = rng.choice(["int_list", "int_array", "float_list"])
+        else:
+            lower, upper = objectives.gen_box(rng, N)
+            if rng.random() < 0.1:
+                btype = "float_list"
         obj = objectives.gen_spec(rng, N, lower, upper, families)
     params = {"r": gen_r(rng), "eps": gen_eps(rng, N, eps_big_prob),
               "itersLimit": gen_iters(rng, max_iters, small_iters_prob),
@@ -56,6 +64,8 @@ def gen_actor(rng, max_iters=120, dims=(1, 2, 3, 4, 5), families=None, shipped_p
     if lower is not None:
         spec["lower"] = lower
         spec["upper"] = upper
+        if btype != "float_array":
+            spec["bounds_type"] = btype
     return spec
 
 
